@@ -236,11 +236,28 @@ Definition ci_setdefault (c : cid) (k : K) (d : V) : cid * eres V :=
   | _ => base_setdefault c k d
   end.
 
+(* "mutate in place the object the lookup returns":  v = c[key]; v.append(x)  (v[i] = x, v.add(x) ...).
+   Values of the model are values; f v = Some v' is the content of the object after the mutation, f v = None
+   means that v is not a mutable object (AttributeError / TypeError).  The object c[key] returns is the STORED one
+   when the key is present -- its content changes in place, position and spelling untouched -- and, in the
+   defaulting variant, a FRESH default (default_factory() is called on every miss, utils.py:206-210) when it is
+   absent: mutating that changes nothing in the container, and the next miss yields a pristine default again. *)
+Definition ci_mutate (c : cid) (k : K) (f : V -> option V) : cid * eres unit :=
+  match ci_getitem c k with
+  | EExn e => (c, EExn e)
+  | EOk v =>
+    match f v with
+    | None => (c, EExn TypeError)
+    | Some v' => ((if ci_contains c k then upd c (al_set (lower k) v' (c_dict c)) (c_keys c) else c), EOk tt)
+    end
+  end.
+
 (* ---- operations of a history, their results, one step *)
 Inductive op :=
 | OSet (k : K) (v : V) | OGet (k : K) | ODel (k : K) | OContains (k : K)
 | OGetD (k : K) (d : option V) | OPop (k : K) (d : option V) | OPopitem
-| OSetdefault (k : K) (d : V) | OUpdate (kvs : list (K * V)) | OClear | OLower.
+| OSetdefault (k : K) (d : V) | OUpdate (kvs : list (K * V)) | OClear | OLower
+| OMutate (k : K) (f : V -> option V).
 
 Inductive ret := RNone | RVal (v : V) | RBool (b : bool) | RKey (k : K) | RItem (k : K) (v : V).
 
@@ -261,6 +278,7 @@ Definition step (c : cid) (o : op) : cid * eres ret :=
   | OUpdate kvs => (ci_update c kvs, EOk RNone)
   | OClear => let (c', r) := ci_clear c in (c', ret_unit r)
   | OLower => match ci_lower c with EOk c' => (c', EOk RNone) | EExn e => (c, EExn e) end
+  | OMutate k f => let (c', r) := ci_mutate c k f in (c', ret_unit r)
   end.
 
 (* what the public protocol shows of a container *)
@@ -417,6 +435,7 @@ Arguments OSetdefault {K V} k d.
 Arguments OUpdate {K V} kvs.
 Arguments OClear {K V}.
 Arguments OLower {K V}.
+Arguments OMutate {K V} k f.
 Arguments RNone {K V}.
 Arguments RVal {K V} v.
 Arguments RBool {K V} b.
